@@ -26,7 +26,9 @@ class C18(TreeCheck):
             if i % 8 == 7:
                 prog, meta = programs.g_exitstatus(rng, full=False)
             else:
-                prog, meta = programs.g_fresh(rng)
+                # initializer variants are stratified: every run has failing initializers of each exception kind
+                fi = {1: ("fail_nth", "RuntimeError"), 2: ("fail_nth", "UserWarning"), 3: ("fail_nth", "SystemExit"), 4: ("leak0", None)}.get(i % 11, (None, None))
+                prog, meta = programs.g_fresh(rng, force_init=fi[0], force_exc=fi[1])
             out.append({"program": prog, "config": {"driver_as_module": bool(meta.get("as_module"))}, "meta": meta})
         if tier == "thorough":
             for ctx in ("loky", "loky_init_main"):
